@@ -1283,6 +1283,13 @@ class Mps(MatrixProduct):
             if self.evolve_config.ivp_solver != "krylov":
                 coef = 1j
 
+        # the sweep starts at the site `to_right` points away from and treats it as the
+        # canonical center. The flags alone do not guarantee that (e.g. a sum of two states)
+        if mps.to_right:
+            mps.ensure_right_canonical()
+        else:
+            mps.ensure_left_canonical()
+
         # construct the environment matrix
         # almost half is not used. Not a big deal.
         environ = Environ(mps, mpo)
@@ -1421,6 +1428,13 @@ class Mps(MatrixProduct):
             mps = self.to_complex()
             if self.evolve_config.ivp_solver != "krylov":
                 coef = 1j
+
+        # the sweep starts at the site `to_right` points away from and treats it as the
+        # canonical center. The flags alone do not guarantee that (e.g. a sum of two states)
+        if mps.to_right:
+            mps.ensure_right_canonical()
+        else:
+            mps.ensure_left_canonical()
 
         # construct the environment matrix
         # almost half is not used. Not a big deal.
